@@ -1,1 +1,321 @@
-/-! C09 - property theorems (declared with their full name `C09.<name>`; helper lemmas go to Lemmas/) -/
+import CohdlVerif.Lemmas.C09Lemmas
+
+/-!
+  C09 - property theorems: the compile-time evaluation `pyBin / pyUn / pyPar` (mirror of the Python methods the
+  tracer executes on constant operands) yields exactly the documented value, type and width `specBin / specUn /
+  specPar` (= what numeric_std computes for the emitted expression) wherever the specification is defined -
+  for ALL widths and values - and never raises there.  The statements have the form
+  `spec = some v -> pyFold = ok v` (totality and agreement at once; the specification is undefined for division
+  by zero, for integers outside the representable range of the vector operand and for unsupported type pairs).
+  The model mirrors the tree with fixes/C09-*.patch applied; the `_old_fails_at` theorems are the witnesses
+  against the unpatched code.
+-/
+open CohdlVerif.C09
+
+/-- Unsigned x Unsigned, every binary operator, all widths and values -/
+theorem C09.uu_fold_eq_spec (op : BinOp) (wa na wb nb : Nat) (hwa : 1 ≤ wa) (hwb : 1 ≤ wb)
+    (ha : na < 2 ^ wa) (hb : nb < 2 ^ wb) (v : Val)
+    (hs : specBin op (.vec .uns wa na) (.vec .uns wb nb) = some v) :
+    pyBin op (.vec .uns wa na) (.vec .uns wb nb) = .ok v := by
+  have hM := Nat.two_pow_pos wa
+  have hMb := Nat.two_pow_pos wb
+  cases op
+  case add =>
+    simp only [specBin, specArith, isNumeric, valOf, if_true, Option.some.injEq] at hs
+    subst hs
+    simp only [pyBin, lhsMethod, uAdd, wrap, ripple_pat]
+  case sub =>
+    simp only [specBin, specArith, isNumeric, valOf, if_true, Option.some.injEq] at hs
+    subst hs
+    simp only [pyBin, lhsMethod, uSub_uu wa na wb nb hwa hb, wrap]
+  case mul =>
+    simp only [specBin, specArith, isNumeric, valOf, if_true, Option.some.injEq] at hs
+    subst hs
+    simp only [pyBin, lhsMethod, uMul]
+    have h : (na : Int) * nb < ((2 ^ (wa + wb) : Nat) : Int) := by
+      rw [Nat.pow_add]; push_cast
+      have h1 : (na : Int) < 2 ^ wa := by exact_mod_cast ha
+      have h2 : (nb : Int) < 2 ^ wb := by exact_mod_cast hb
+      nlinarith [Int.natCast_nonneg na, Int.natCast_nonneg nb]
+    rw [mkU_ok _ _ (by positivity) h]
+  case tdiv =>
+    simp only [specBin, specArith, isNumeric, valOf, if_true] at hs
+    by_cases hz : (nb : Int) = 0
+    · simp [hz] at hs
+    · simp only [hz, ↓reduceIte, Option.some.injEq] at hs
+      subst hs
+      have hz' : nb ≠ 0 := by omega
+      have hlt : na / nb < 2 ^ wa := Nat.lt_of_le_of_lt (Nat.div_le_self _ _) ha
+      simp only [pyBin, opTruncdiv, uTruncdiv, hz', if_false, resToExcept, nat_fdiv, nat_tdiv,
+        mkU_nat _ _ hlt, wrap_uns_nat _ _ hlt]
+  case fdiv =>
+    simp only [specBin] at hs
+    by_cases hz : nb = 0
+    · simp [hz] at hs
+    · simp only [hz, ↓reduceIte, Option.some.injEq] at hs
+      subst hs
+      have hlt : na / nb < 2 ^ wa := Nat.lt_of_le_of_lt (Nat.div_le_self _ _) ha
+      simp only [pyBin, lhsMethod, uFloordiv, uTruncdiv, hz, if_false, nat_fdiv, nat_tdiv,
+        mkU_nat _ _ hlt, wrap_uns_nat _ _ hlt]
+  case mod =>
+    simp only [specBin, specArith, isNumeric, valOf, if_true] at hs
+    by_cases hz : (nb : Int) = 0
+    · simp [hz] at hs
+    · simp only [hz, ↓reduceIte, Option.some.injEq] at hs
+      subst hs
+      have hz' : nb ≠ 0 := by omega
+      have hlt : na % nb < 2 ^ wb := Nat.lt_trans (Nat.mod_lt _ (by omega)) hb
+      simp only [pyBin, lhsMethod, uMod, hz', if_false, nat_fmod, mkU_nat _ _ hlt, wrap_uns_nat _ _ hlt]
+  case rem =>
+    simp only [specBin, specArith, isNumeric, valOf, if_true] at hs
+    by_cases hz : (nb : Int) = 0
+    · simp [hz] at hs
+    · simp only [hz, ↓reduceIte, Option.some.injEq] at hs
+      subst hs
+      have hz' : nb ≠ 0 := by omega
+      have hlt : na % nb < 2 ^ wb := Nat.lt_trans (Nat.mod_lt _ (by omega)) hb
+      simp only [pyBin, opRem, uRem, hz', if_false, resToExcept, truncRem_eq, nat_tmod,
+        mkU_nat _ _ hlt, wrap_uns_nat _ _ hlt]
+  case shl =>
+    simp only [specBin, shiftAmount, isNumeric, valOf, Bool.true_and] at hs
+    simp only [Int.natCast_nonneg, decide_true, if_true, Option.some.injEq, Int.toNat_natCast] at hs
+    subst hs
+    have hneg : ¬ ((nb : Int) < 0) := by omega
+    have hlt := Nat.mod_lt (na * 2 ^ nb) hM
+    simp only [pyBin, lhsMethod, uShl, shiftAmount, Int.toNat_natCast, hneg, if_false, mkU_nat _ _ hlt, wrap]
+    congr 2
+  case shr =>
+    simp only [specBin, shiftAmount, isNumeric, valOf, Bool.true_and] at hs
+    simp only [Int.natCast_nonneg, decide_true, if_true, Option.some.injEq, Int.toNat_natCast] at hs
+    subst hs
+    have hneg : ¬ ((nb : Int) < 0) := by omega
+    have hlt : na / 2 ^ nb < 2 ^ wa := Nat.lt_of_le_of_lt (Nat.div_le_self _ _) ha
+    simp only [pyBin, lhsMethod, uShr, shiftAmount, Int.toNat_natCast, hneg, if_false, mkU_nat _ _ hlt,
+      reduceCtorEq, nat_fdiv, wrap_uns_nat _ _ hlt]
+  case and =>
+    simp only [specBin, true_and] at hs
+    by_cases h : wa = wb
+    · simp only [h, ↓reduceIte, Option.some.injEq] at hs; subst hs
+      simp only [pyBin, lhsMethod, vBitwise, h, and_self, if_true]
+    · simp [h] at hs
+  case or =>
+    simp only [specBin, true_and] at hs
+    by_cases h : wa = wb
+    · simp only [h, ↓reduceIte, Option.some.injEq] at hs; subst hs
+      simp only [pyBin, lhsMethod, vBitwise, h, and_self, if_true]
+    · simp [h] at hs
+  case xor =>
+    simp only [specBin, true_and] at hs
+    by_cases h : wa = wb
+    · simp only [h, ↓reduceIte, Option.some.injEq] at hs; subst hs
+      simp only [pyBin, lhsMethod, vBitwise, h, and_self, if_true]
+    · simp [h] at hs
+  case cat =>
+    simp only [specBin, Option.some.injEq] at hs; subst hs
+    simp only [pyBin, lhsMethod, vMatmul]
+  all_goals
+    simp only [specBin, specArith, isNumeric, valOf, if_true, Option.some.injEq] at hs
+    subst hs
+    simp only [pyBin, lhsMethod, uCmp, uCmpOperand]
+
+example : specBin .sub (.vec .uns 4 5) (.vec .uns 2 1) = some (.vec .uns 4 4) := by decide
+
+/-- Signed x Signed: `+ - truncdiv`, comparisons, bitwise operators and `@`, all widths and values
+    (`*`, `%`, `rem`, shifts: see `C09.ss_mul_fold_eq_spec` and notes - the range side conditions of the
+    constructor for mod/rem are not proved here) -/
+theorem C09.ss_fold_eq_spec_partial (op : BinOp) (wa na wb nb : Nat) (hwa : 1 ≤ wa) (hwb : 1 ≤ wb)
+    (ha : na < 2 ^ wa) (hb : nb < 2 ^ wb) (v : Val)
+    (hop : op ≠ .mul ∧ op ≠ .mod ∧ op ≠ .rem ∧ op ≠ .shl ∧ op ≠ .shr)
+    (hs : specBin op (.vec .sgn wa na) (.vec .sgn wb nb) = some v) :
+    pyBin op (.vec .sgn wa na) (.vec .sgn wb nb) = .ok v := by
+  obtain ⟨h1, h2, h3, h4, h5⟩ := hop
+  cases op
+  case add =>
+    simp only [specBin, specArith, isNumeric, valOf, if_true, Option.some.injEq] at hs
+    subst hs
+    simp only [pyBin, lhsMethod, sAdd_ss]
+  case sub =>
+    simp only [specBin, specArith, isNumeric, valOf, if_true, Option.some.injEq] at hs
+    subst hs
+    simp only [pyBin, lhsMethod, sSub_ss wa na wb nb hwa hwb hb]
+  case tdiv =>
+    simp only [specBin, specArith, isNumeric, valOf, if_true] at hs
+    by_cases hz : toInt wb nb = 0
+    · simp [hz] at hs
+    · simp only [hz, ↓reduceIte, Option.some.injEq] at hs
+      subst hs
+      have hz' : nb ≠ 0 := by
+        intro h0; subst h0; apply hz; unfold toInt; have := Nat.two_pow_pos (wb - 1); simp [this]
+      simp only [pyBin, opTruncdiv, sTruncdiv, hz', if_false, resToExcept, truncDiv_eq, wrap]
+  case mul => exact absurd rfl h1
+  case mod => exact absurd rfl h2
+  case rem => exact absurd rfl h3
+  case shl => exact absurd rfl h4
+  case shr => exact absurd rfl h5
+  case fdiv => simp [specBin] at hs
+  case and =>
+    simp only [specBin, true_and] at hs
+    by_cases h : wa = wb
+    · simp only [h, ↓reduceIte, Option.some.injEq] at hs; subst hs
+      simp only [pyBin, lhsMethod, vBitwise, h, and_self, if_true]
+    · simp [h] at hs
+  case or =>
+    simp only [specBin, true_and] at hs
+    by_cases h : wa = wb
+    · simp only [h, ↓reduceIte, Option.some.injEq] at hs; subst hs
+      simp only [pyBin, lhsMethod, vBitwise, h, and_self, if_true]
+    · simp [h] at hs
+  case xor =>
+    simp only [specBin, true_and] at hs
+    by_cases h : wa = wb
+    · simp only [h, ↓reduceIte, Option.some.injEq] at hs; subst hs
+      simp only [pyBin, lhsMethod, vBitwise, h, and_self, if_true]
+    · simp [h] at hs
+  case cat =>
+    simp only [specBin, Option.some.injEq] at hs; subst hs
+    simp only [pyBin, lhsMethod, vMatmul]
+  all_goals
+    simp only [specBin, specArith, isNumeric, valOf, if_true, Option.some.injEq] at hs
+    subst hs
+    simp only [pyBin, lhsMethod, sCmp, sCmpOperand]
+
+/-- Signed x Signed multiplication: the product always fits the sum of the widths -/
+theorem C09.ss_mul_fold_eq_spec (wa na wb nb : Nat) (hwa : 1 ≤ wa) (hwb : 1 ≤ wb)
+    (ha : na < 2 ^ wa) (hb : nb < 2 ^ wb) :
+    pyBin .mul (.vec .sgn wa na) (.vec .sgn wb nb) = .ok (wrap .sgn (wa + wb) (toInt wa na * toInt wb nb)) := by
+  have b1 := toInt_bounds wa na hwa ha
+  have b2 := toInt_bounds wb nb hwb hb
+  have hp : 2 ^ (wa + wb - 1) = 2 * (2 ^ (wa - 1) * 2 ^ (wb - 1)) := by
+    obtain ⟨a, rfl⟩ : ∃ a, wa = a + 1 := ⟨wa - 1, by omega⟩
+    obtain ⟨b, rfl⟩ : ∃ b, wb = b + 1 := ⟨wb - 1, by omega⟩
+    simp only [Nat.add_sub_cancel]
+    rw [show a + 1 + (b + 1) - 1 = (a + b) + 1 by omega, Nat.pow_succ, Nat.pow_add]; ring
+  have hr : inRange .sgn (wa + wb) (toInt wa na * toInt wb nb) = true := by
+    simp only [inRange, Bool.and_eq_true, decide_eq_true_eq]
+    rw [hp]
+    generalize 2 ^ (wa - 1) = P at *
+    generalize 2 ^ (wb - 1) = Q at *
+    generalize toInt wa na = x at *
+    generalize toInt wb nb = y at *
+    push_cast
+    constructor <;> nlinarith [b1.1, b1.2, b2.1, b2.2]
+  simp only [pyBin, lhsMethod, sMul, mkS_ok _ _ hr]
+
+
+/-- unary operators and views on vectors (Unsigned / Signed / BitVector), all widths and values -/
+theorem C09.un_vec_fold_eq_spec (op : UnOp) (k : Kind) (w n : Nat) (hw : 1 ≤ w) (hn : n < 2 ^ w) (v : Val)
+    (hs : specUn op (.vec k w n) = some v) : pyUn op (.vec k w n) = .ok v := by
+  cases op
+  case neg =>
+    cases k <;> simp only [specUn, Option.some.injEq, reduceCtorEq] at hs <;> subst hs
+    · simp only [pyUn, uNeg_eq w n hw hn, resToExcept]; rfl
+    · simp only [pyUn, sNeg_eq w n hw hn, resToExcept]
+  case abs =>
+    cases k <;> simp only [specUn, Option.some.injEq, reduceCtorEq] at hs <;> subst hs
+    simp only [pyUn, sAbs]
+    by_cases h0 : toInt w n ≥ 0
+    · simp only [h0, if_true, mkS_ok _ _ (inRange_toInt w n hw hn), resToExcept, wrap]
+      congr 3; omega
+    · simp only [h0, if_false, sNeg_eq w n hw hn, resToExcept, wrap]
+      congr 3; omega
+  case msb =>
+    simp only [specUn, Option.some.injEq] at hs; subst hs
+    simp only [pyUn, msb_bit w n hw hn]
+  all_goals
+    simp only [specUn, Option.some.injEq] at hs; subst hs
+    simp only [pyUn]
+
+/-- unary operators on Bit and Integer -/
+theorem C09.un_scalar_fold_eq_spec (op : UnOp) (a v : Val) (hk : ∀ k w n, a ≠ .vec k w n)
+    (hs : specUn op a = some v) : pyUn op a = .ok v := by
+  cases a
+  case vec k w n => exact absurd rfl (hk k w n)
+  all_goals
+    cases op <;> simp only [specUn, Option.some.injEq, reduceCtorEq] at hs <;> subst hs <;> simp only [pyUn]
+
+/-- Unsigned with a Python int on either side, `+` and `-`: wraps at the vector's width (for every int: the
+    Python code reduces the int modulo 2^w first, so the in-range hypothesis of the spec is not even needed) -/
+theorem C09.ui_addsub_fold_eq_spec (w n : Nat) (r : Int) (hw : 1 ≤ w) (hn : n < 2 ^ w) :
+    pyBin .add (.vec .uns w n) (.int r) = .ok (wrap .uns w ((n : Int) + r)) ∧
+    pyBin .sub (.vec .uns w n) (.int r) = .ok (wrap .uns w ((n : Int) - r)) ∧
+    pyBin .add (.int r) (.vec .uns w n) = .ok (wrap .uns w (r + (n : Int))) ∧
+    pyBin .sub (.int r) (.vec .uns w n) = .ok (wrap .uns w (r - (n : Int))) := by
+  refine ⟨?_, ?_, ?_, ?_⟩
+  · simp only [pyBin, lhsMethod, uAdd_int w n r hw, wrap]
+  · simp only [pyBin, lhsMethod, uSub_int w n r hw, wrap]
+  · simp only [pyBin, lhsMethod, rhsMethod, uAdd_int w n r hw, wrap, Int.add_comm]
+  · simp only [pyBin, lhsMethod, rhsMethod, uNeg_eq w n hw hn, uAdd_int _ _ r hw, wrap]
+    congr 2
+    rw [pat_absorb_l]; congr 1; omega
+
+/-- patched `__rmul__`: `int * Unsigned` is the product at twice the width (in-range int) -/
+theorem C09.rmul_iu_fold_eq_spec (w n : Nat) (l : Int) (hn : n < 2 ^ w) (hl : inRange .uns w l = true) (v : Val)
+    (hs : specBin .mul (.int l) (.vec .uns w n) = some v) :
+    pyBin .mul (.int l) (.vec .uns w n) = .ok v := by
+  simp only [specBin, isNumeric, hl, Bool.and_self, if_true, specArith, valOf, Option.some.injEq] at hs
+  subst hs
+  simp only [inRange, Bool.and_eq_true, decide_eq_true_eq] at hl
+  have h : l * (n : Int) < ((2 ^ (w + w) : Nat) : Int) := by
+    rw [Nat.pow_add]; push_cast
+    have h1 : (n : Int) < 2 ^ w := by exact_mod_cast hn
+    have h2 : l < 2 ^ w := by exact_mod_cast hl.2
+    nlinarith [Int.natCast_nonneg n, hl.1]
+  have h0 : 0 ≤ l * (n : Int) := Int.mul_nonneg hl.1 (Int.natCast_nonneg n)
+  simp only [pyBin, lhsMethod, rhsMethod, uRmul, mkU_ok _ _ h0 h, wrap, Nat.two_mul]
+
+example : inRange .uns 4 3 = true ∧ specBin .mul (.int 3) (.vec .uns 4 5) = some (.vec .uns 8 15) := by decide
+
+/-- `[i]`, `[hi:lo]`, `msb(k)`, `lsb(k)`: all widths, values and parameters.
+    FULL statement (not closed in time): the same for `op = .resize` (needs `n * 2^zeros < 2^target` from
+    `w + zeros ≤ target`); resize is covered by the exhaustive correspondence run only. -/
+theorem C09.par_fold_eq_spec_partial (op : ParOp) (a v : Val) (p1 p2 : Int) (hop : op ≠ .resize)
+    (hs : specPar op a p1 p2 = some v) : pyPar op a p1 p2 = .ok v := by
+  cases a
+  case vec k w n =>
+    cases op
+    case resize => exact absurd rfl hop
+    all_goals
+      simp only [specPar] at hs
+      split at hs
+      · rename_i hc
+        simp only [Option.some.injEq] at hs; subst hs
+        simp only [pyPar, hc, and_self, if_true]
+      · simp at hs
+  all_goals
+    cases op <;> simp [specPar] at hs
+
+example : specPar .slice (.vec .uns 4 5) 2 1 = some (.vec .bv 2 2) := by decide
+
+/-- the bit-level loop of `Unsigned.add` / `Signed.add` is addition modulo 2^t, for every width -/
+theorem C09.ripple_add_exact (t a b : Nat) : ripple t a b = (a + b) % 2 ^ t := ripple_eq t a b
+
+/-! ## witnesses against the unpatched code (`pyBinOld` = behaviour of /repo before fixes/C09-*.patch) -/
+
+/-- `Unsigned[4](5) - Unsigned[2](1)` folded to 8 (run time: 4): rhs was negated at its own width -/
+theorem C09.sub_uu_old_fails_at :
+    pyBinOld .sub (.vec .uns 4 5) (.vec .uns 2 1) = .ok (.vec .uns 4 8) ∧
+    specBin .sub (.vec .uns 4 5) (.vec .uns 2 1) = some (.vec .uns 4 4) := by decide
+
+/-- `Signed[4](0) - Signed[2](-2)` folded to -2 (run time: 2) -/
+theorem C09.sub_ss_old_fails_at :
+    pyBinOld .sub (.vec .sgn 4 0) (.vec .sgn 2 2) = .ok (.vec .sgn 4 14) ∧
+    specBin .sub (.vec .sgn 4 0) (.vec .sgn 2 2) = some (.vec .sgn 4 2) := by decide
+
+/-- `3 * Unsigned[4](5)` folded to 25 (run time: 15): `__rmul__` used `lhs = int(rhs)` -/
+theorem C09.rmul_iu_old_fails_at :
+    pyBinOld .mul (.int 3) (.vec .uns 4 5) = .ok (.vec .uns 8 25) ∧
+    specBin .mul (.int 3) (.vec .uns 4 5) = some (.vec .uns 8 15) := by decide
+
+/-- `op.truncdiv(Signed[4](-8), Signed[4](-1))` raised at compile time (run time: wraps to -8) -/
+theorem C09.truncdiv_ss_old_fails_at :
+    pyBinOld .tdiv (.vec .sgn 4 8) (.vec .sgn 4 15) = .error .assertErr ∧
+    specBin .tdiv (.vec .sgn 4 8) (.vec .sgn 4 15) = some (.vec .sgn 4 8) := by decide
+
+/-- the unpatched subtraction is right exactly when the subtrahend is not narrower than the minuend -/
+theorem C09.sub_uu_old_partial (wa na wb nb : Nat) (hwa : 1 ≤ wa) (hb : nb < 2 ^ wb) (hw : wa ≤ wb) :
+    pyBinOld .sub (.vec .uns wa na) (.vec .uns wb nb) = pyBin .sub (.vec .uns wa na) (.vec .uns wb nb) := by
+  simp only [pyBinOld, pyBin, lhsMethod, uSubOld, uSub, Nat.max_eq_right hw, resToExcept]
+  rw [uNeg_eq wb nb (by omega) hb]
+  simp only [uAdd]
+
+example : (5 : Nat) < 2 ^ 4 ∧ (1 : Nat) < 2 ^ 2 := by decide
